@@ -177,9 +177,10 @@ class Arena:
         self.fresh = 0
         self.cleared = False
         self.pending_len = None
+        self.fresh_keys = set()
 
     def stale(self, key):
-        return key.startswith("pop(") or key.startswith("len(")
+        return key.startswith("pop(") or key.startswith("len(") or key in self.fresh_keys
 
     def key_of(self, idx):
         if isinstance(idx, IntV):
@@ -427,6 +428,7 @@ class PathSummary:
         self.interp = None
         self.final = {}
         self.links = []
+        self.rels = {}
 
     def input(self, key, default=None):
         for k, v in self.inputs:
@@ -705,7 +707,14 @@ class Interp:
             nt = repr(self.force(new.fields["0"])) if pn == "S" else None
             self.emit("link_write", table=arena.name, node=key, side=fname, old=ot, new=nt)
         elif fname == "prefix":
-            self.emit("prefix_write", table=arena.name, node=key, new=repr(val))
+            oldv = cell.value
+            oldn = oldv.name if isinstance(oldv, (UnkV, SymV)) else repr(oldv)
+            newn = val.name if isinstance(val, (UnkV, SymV)) else repr(val)
+            rel = None
+            if not arena.stale(key) and isinstance(val, (UnkV, SymV)):
+                r_ = self.rels.get(self.canon(oldn), self.canon(newn))
+                rel = r_[0] if r_ else None
+            self.emit("prefix_write", table=arena.name, node=key, new=newn, old=oldn, rel=rel, fresh=arena.stale(key))
             if isinstance(val, SymV):
                 # the node's prefix is now this value: later relations go through the new name
                 self.rels.alias(val.name, "%s[%s].prefix" % (arena.name, key))
@@ -1409,6 +1418,7 @@ def explore(facts, entry, make_args=None, opts=None, max_paths=20000, program=No
         try:
             s.final = it.snapshot()
             s.links = it.link_audit()
+            s.rels = {k: v[0] for k, v in it.rels.rel.items()}
             s.interp = None
         except Exception as ex:  # snapshot is best effort
             s.final = {"error": str(ex)}
